@@ -39,10 +39,28 @@ theorem spell_nil_of_nonempty : ∀ (path : List Suf) (ext : List Str),
   | .var :: _, [], _, _, h => by simp [spell] at h
   | .all :: _, [], _, _, h => by simp [spell] at h
 
+/-- the values bound along a suffix path: what a `{name}` variable takes is slash-free (a wildcard takes anything) -/
+def VarVals : List Suf → List Str → Prop
+  | [], _ => True
+  | .const _ :: r, ext => VarVals r ext
+  | .var :: r, v :: ext => '/' ∉ v ∧ VarVals r ext
+  | .var :: _, [] => True
+  | .all :: _, _ => True
+
+theorem takeSeg_fst_slashfree : ∀ (s : Str), '/' ∉ (takeSeg s).1
+  | [] => by simp [takeSeg]
+  | c :: cs => by
+    simp only [takeSeg]
+    split
+    · simp
+    · rename_i h
+      simp only [List.mem_cons, not_or]
+      exact ⟨fun e => h e.symm, takeSeg_fst_slashfree cs⟩
+
 /-- what a successful match satisfies, relative to the node it started from -/
 def Sound (node_paths : List (List Suf × Key)) (rem : Str) (vals0 : List Str) (res : Key × List Str) : Prop :=
   ∃ ext path, (path, res.1) ∈ node_paths ∧ res.2 = vals0 ++ ext ∧
-    ((∀ x ∈ ext, x ≠ []) → WFPath path → spell path ext = some rem)
+    ((∀ x ∈ ext, x ≠ []) → WFPath path → spell path ext = some rem) ∧ VarVals path ext
 
 theorem first_some {a b : Option α} {x : α} (h : first a b = some x) : a = some x ∨ (a = none ∧ b = some x) := by
   cases a <;> simp_all [first]
@@ -65,7 +83,7 @@ theorem match_sound :
     intro sufs vals v res h
     simp only [matchN] at h
     cases h
-    exact ⟨[], [], by simp [pathsN], by simp, fun _ _ => rfl⟩
+    exact ⟨[], [], by simp [pathsN], by simp, fun _ _ => rfl, trivial⟩
   case down =>
     intro value sufs rem vals hno ih res h
     have : matchN (.mk value sufs) rem vals = matchL sufs rem vals := by
@@ -76,8 +94,8 @@ theorem match_sound :
         | some v => exact (hno v rfl rfl).elim
       | cons c cs => simp [matchN]
     rw [this] at h
-    obtain ⟨ext, path, e0, e1, e2⟩ := ih res h
-    exact ⟨ext, path, by simp [pathsN, e0], e1, e2⟩
+    obtain ⟨ext, path, e0, e1, e2, e4⟩ := ih res h
+    exact ⟨ext, path, by simp [pathsN, e0], e1, e2, e4⟩
   case lnil => intro rem vals res h; simp [matchL] at h
   case lcons =>
     intro suf child rest rem vals ihStrip ihSame ihVar ihRest res h
@@ -89,8 +107,8 @@ theorem match_sound :
         cases hs : stripPrefix p rem with
         | some rem' =>
           simp only [hs] at h1
-          obtain ⟨ext, path, e0, e1, e3⟩ := ihStrip rem' res h1
-          refine ⟨ext, .const p :: path, ?_, e1, fun hx hw => ?_⟩
+          obtain ⟨ext, path, e0, e1, e3, e4⟩ := ihStrip rem' res h1
+          refine ⟨ext, .const p :: path, ?_, e1, fun hx hw => ?_, by simpa [VarVals] using e4⟩
           · simp only [pathsL, List.mem_append, List.mem_map]
             exact Or.inl ⟨(path, res.1), e0, rfl⟩
           · have := e3 hx (wfpath_tail hw)
@@ -101,8 +119,8 @@ theorem match_sound :
           · simp only [hq, and_self, if_true] at h1
             obtain ⟨hr, hp⟩ := hq
             subst hr hp
-            obtain ⟨ext, path, e0, e1, e3⟩ := ihSame res h1
-            refine ⟨ext, .const ['/'] :: path, ?_, e1, fun hx hw => ?_⟩
+            obtain ⟨ext, path, e0, e1, e3, e4⟩ := ihSame res h1
+            refine ⟨ext, .const ['/'] :: path, ?_, e1, fun hx hw => ?_, by simpa [VarVals] using e4⟩
             · simp only [pathsL, List.mem_append, List.mem_map]
               exact Or.inl ⟨(path, res.1), e0, rfl⟩
             · -- the "/"-against-exhausted-input branch: with non-empty bindings it would make the stored path end in "/"
@@ -117,8 +135,8 @@ theorem match_sound :
           · simp [hq] at h1
       | var =>
         simp only at h1
-        obtain ⟨ext, path, e0, e1, e3⟩ := ihVar res h1
-        refine ⟨(takeSeg rem).1 :: ext, .var :: path, ?_, by simp [e1], fun hx hw => ?_⟩
+        obtain ⟨ext, path, e0, e1, e3, e4⟩ := ihVar res h1
+        refine ⟨(takeSeg rem).1 :: ext, .var :: path, ?_, by simp [e1], fun hx hw => ?_, ⟨takeSeg_fst_slashfree rem, e4⟩⟩
         · simp only [pathsL, List.mem_append, List.mem_map]
           exact Or.inl ⟨(path, res.1), e0, rfl⟩
         · have hx' : ∀ x ∈ ext, x ≠ [] := fun x hm => hx x (by simp [hm])
@@ -133,11 +151,11 @@ theorem match_sound :
         | some v =>
           simp [valueOf] at h1
           subst h1
-          refine ⟨[rem], [.all], ?_, by simp, fun _ _ => by simp [spell]⟩
+          refine ⟨[rem], [.all], ?_, by simp, fun _ _ => by simp [spell], trivial⟩
           simp only [pathsL, List.mem_append, List.mem_map]
           exact Or.inl ⟨([], v), by simp [pathsN], rfl⟩
-    · obtain ⟨ext, path, e0, e1, e3⟩ := ihRest res h2
-      exact ⟨ext, path, by simp only [pathsL, List.mem_append]; exact Or.inr e0, e1, e3⟩
+    · obtain ⟨ext, path, e0, e1, e3, e4⟩ := ihRest res h2
+      exact ⟨ext, path, by simp only [pathsL, List.mem_append]; exact Or.inr e0, e1, e3, e4⟩
 
 /-! ### insertion and the set of stored paths -/
 
